@@ -545,7 +545,7 @@ pub fn run_world(case: &E2eCase, horizon_s: u64) -> (RunResult, Vec<simrt::Panic
             {
                 tokio::pin!(all);
                 let started = tokio::time::Instant::now();
-                let mut last_ops = crate::net::ops();
+                let mut last_ops = crate::net::moved();
                 let mut quiet = 0u32;
                 loop {
                     tokio::select! {
@@ -553,7 +553,7 @@ pub fn run_world(case: &E2eCase, horizon_s: u64) -> (RunResult, Vec<simrt::Panic
                         _ = &mut all => break,
                         _ = runaway.notified() => break,
                         _ = tokio::time::sleep(Duration::from_secs(60)) => {
-                            let ops = crate::net::ops();
+                            let ops = crate::net::moved();
                             if ops == last_ops { quiet += 1 } else { quiet = 0 }
                             last_ops = ops;
                             if quiet >= 2 { stalled = true; break }
